@@ -85,6 +85,33 @@ def symbol_aliases(problems, texts=None):
     return {z + '__s': z for z in zero}
 
 
+def _asp_constants(t, acc):
+    if isinstance(t, tuple):
+        if len(t) == 2 and t[0] == 'psym':
+            acc.add(str(t[1]))
+            return
+        for x in t:
+            _asp_constants(x, acc)
+
+
+def renamed_symbol_collisions(problems, program_trees):
+    """Causal attribution for one known defect: a symbolic constant c that anthem renamed (c no longer occurs as a constant
+    in the problem) to c__s while c__s is *itself* a constant of the input programs - two distinct input constants now
+    share one TFF constant. Returns the list of such c__s (empty when the defect cannot be involved)."""
+    consts = set()
+    for t in program_trees:
+        _asp_constants(t, consts)
+    hits = set()
+    for p in problems:
+        used = set()
+        for f in p['formulas']:
+            _symbols_of(f['formula'], used)
+        for d in used:
+            if d.endswith('__s') and d in consts and d[:-3] in consts and d[:-3] not in used:
+                hits.add(d)
+    return sorted(hits)
+
+
 class AliasCtx(Ctx):
     def __init__(self, aliases=None, **kw):
         super().__init__(**kw)
